@@ -209,8 +209,14 @@ def streamFilters (d : Dict) : Option (List Bytes) :=
   | some (.arr items) => items.mapM Obj.asName
   | some _ => none
 
-/-- `self.dict.get(b"DecodeParms").and_then(Object::as_dict).ok()` — only a DICTIONARY is used -/
-def decodeParms (d : Dict) : Option Dict := (d.get K_DECODEPARMS).bind Obj.asDict
+/-- parameters of stage `i` (`decompressed_content`, since the repair of F-C09-b): a DICTIONARY holds the
+parameters of every stage; an ARRAY is parallel to the filters — its `i`-th element, when that is a dictionary
+(`null`, anything else, or a missing element: no parameters); any other object: no parameters. -/
+def stageParms (d : Dict) (i : Nat) : Option Dict :=
+  match d.get K_DECODEPARMS with
+  | some (.dict p) => some p
+  | some (.arr items) => (items[i]?).bind Obj.asDict
+  | _ => none
 
 def earlyChange (params : Option Dict) : Bool :=
   match (params.bind (fun p => p.get K_EARLYCHANGE)).bind Obj.asInt with
@@ -223,17 +229,17 @@ def applyFilter (ext : Ext) (params : Option Dict) (name input : Bytes) : Outcom
   else if name = F_A85 then a85Decode input
   else .err "unimplemented"
 
-/-- the `for filter in filters` loop: `output` of one stage is the `input` of the next;
-the SAME `params` go to every Flate / LZW stage. -/
-def filterLoop (ext : Ext) (params : Option Dict) : List Bytes → Bytes → Outcome Bytes
-  | [], output => .ok output
-  | f :: fs, input => (applyFilter ext params f input).bind (filterLoop ext params fs)
+/-- the `for (index, filter) in filters.into_iter().enumerate()` loop: `output` of one stage is the `input`
+of the next; stage `index` is decoded with `parms index`. -/
+def filterLoop (ext : Ext) (parms : Nat → Option Dict) : Nat → List Bytes → Bytes → Outcome Bytes
+  | _, [], output => .ok output
+  | i, f :: fs, input => (applyFilter ext (parms i) f input).bind (filterLoop ext parms (i + 1) fs)
 
 def decompressedContent (ext : Ext) (s : Strm) : Outcome Bytes :=
   match streamFilters s.dict with
   | none => .err "filter"
   | some [] => .ok []                       -- `output = vec![]`, loop does not run
-  | some fs => filterLoop ext (decodeParms s.dict) fs s.content
+  | some fs => filterLoop ext (stageParms s.dict) 0 fs s.content
 
 def getPlainContent (ext : Ext) (s : Strm) : Outcome Bytes :=
   match streamFilters s.dict with
